@@ -21,6 +21,38 @@ type c01Step struct {
 	Extra int      `json:"extra"`           // destination = bound + extra
 	Spare int      `json:"spare"`           // spare capacity behind the destination
 	Short int      `json:"short,omitempty"` // > 0: history step only - the destination has this many bytes, so the call may fail part-way; nothing is judged
+	// Rel (steps after the first): the source is derived from the previous step's source instead of Data - same | drop (its first RelN
+	// bytes removed) | prepend (RelN bytes of Data in front of it) | head (its first RelN bytes) | tail (its last RelN bytes) | append (Data behind it).
+	// A reused compressor then meets byte groups it has seen before, at other positions.
+	Rel  string `json:"rel,omitempty"`
+	RelN int    `json:"reln,omitempty"`
+}
+
+// relSrc derives the source of a step from the previous step's source.
+func (s c01Step) relSrc(prev []byte) []byte {
+	own := s.Data.Build()
+	n := s.RelN
+	if n > len(prev) {
+		n = len(prev)
+	}
+	switch s.Rel {
+	case "same":
+		return prev
+	case "drop":
+		return append([]byte(nil), prev[n:]...)
+	case "prepend":
+		if n > len(own) {
+			n = len(own)
+		}
+		return append(append([]byte(nil), own[:n]...), prev...)
+	case "head":
+		return append([]byte(nil), prev[:n]...)
+	case "tail":
+		return append([]byte(nil), prev[len(prev)-n:]...)
+	case "append":
+		return append(append([]byte(nil), prev...), own...)
+	}
+	return own
 }
 
 type c01Case struct {
@@ -74,6 +106,24 @@ func drawBlockStep(t *rapid.T, maxLen int) c01Step {
 
 func drawC01(t *rapid.T) c01Case {
 	var c c01Case
+	if rapid.IntRange(0, 3).Draw(t, "related?") == 0 {
+		// one compressor object, 2..7 sources derived from one another (shifted, cut, extended), starting small or large
+		comp := rapid.SampledFrom([]string{"fast-obj", "fast-obj", "hc-obj", "fast-pkg"}).Draw(t, "relcomp")
+		first := drawBlockStep(t, rapid.SampledFrom([]int{16, 24, 40, 300, 70000, 200000}).Draw(t, "firstmax"))
+		first.Comp = comp
+		c.Steps = append(c.Steps, first)
+		for i, n := 1, rapid.IntRange(2, 7).Draw(t, "nrel"); i < n; i++ {
+			st := drawBlockStep(t, rapid.SampledFrom([]int{8, 40, 3000}).Draw(t, "ownmax"))
+			st.Comp, st.Depth = comp, first.Depth
+			st.Rel = rapid.SampledFrom([]string{"drop", "drop", "prepend", "head", "tail", "append", "same"}).Draw(t, "rel")
+			st.RelN = rapid.SampledFrom([]int{1, 1, 2, 3, 5, 8, 15, 16, 17, 100, 65536}).Draw(t, "reln")
+			if i < n-1 && rapid.IntRange(0, 4).Draw(t, "relshort?") == 0 {
+				st.Short = rapid.IntRange(1, 40).Draw(t, "relshortn")
+			}
+			c.Steps = append(c.Steps, st)
+		}
+		return c
+	}
 	n := rapid.IntRange(1, 4).Draw(t, "nsteps")
 	maxLen := pick(256<<10, 4<<20)
 	for i := 0; i < n; i++ {
@@ -182,8 +232,14 @@ func depthClass(comp string, d uint32) string {
 
 func runC01(c c01Case, rec *stat.Rec) *stat.Failure {
 	var bc blockComps
+	var prev []byte
 	for i, s := range c.Steps {
 		src := s.Data.Build()
+		if s.Rel != "" && i > 0 {
+			src = s.relSrc(prev)
+			rec.Class("history/source-derived-from-the-previous-one/" + s.Rel)
+		}
+		prev = src
 		bound := lz4.CompressBlockBound(len(src))
 		if s.Short > 0 {
 			_, _ = bc.compress(s.Comp, s.Depth, src, make([]byte, s.Short))
@@ -243,7 +299,8 @@ func init() { register("C01", "C01/roundtrip", runC01) }
 const c01Rule = "rapid-drawn lists of 1..4 compression steps sharing one Compressor/CompressorHC (so steps 2+ run on a reused object) or going " +
 	"through the pooled package functions; sources from the segment grammar (random, small-alphabet text, runs, periodic, copy-back at distances " +
 	"incl. 65534..65537, counters) with total-length classes 0..16, 17..64, ..4096, 64Ki+-16, ..1Mi, ..4Mi; HC depth from {0,1,2,3,4,7,16,64," +
-	"Level1..9,65535,65536,65537,2^20,2^32-1}. Pinned: every length 0..16 x every compressor x 6 contents. Non-trivial = the emitted block has " +
+	"Level1..9,65535,65536,65537,2^20,2^32-1}. One case in four is a history of 2..7 *related* sources on one object: each derived from the previous one (its first k bytes dropped, k bytes put in front, " +
+	"its head or tail of k bytes, extended, or the same), starting from a source of at most 16/24/40/300/70000/200000 bytes, with short-destination calls in between. Pinned: every length 0..16 x every compressor x 6 contents. Non-trivial = the emitted block has " +
 	">= 1 match (reference parse); distinct by hash(source, compressor kind, depth). Long-lived objects (pinned regimes): targets compressed exactly 255/256/257/65535/65536/65537 calls after nearly identical inputs; after 2^31, 2^32, 2^32+2^31, 2^33 bytes (minus 64 or 4096) through the same object; single sources of 9 MiB of random bytes."
 
 func TestC01Pinned(t *testing.T) {
